@@ -55,6 +55,16 @@ def order_scenarios(rng, n):
         for op in sc['ops']:
             if op['op'] == 'set':
                 continue
+            if op.get('input') in ('list', 'range') and rng.random() < .2:
+                # an input that has a length without being a sequence (a set, a dict view, a class with __len__ and __iter__): chunked by
+                # its length like a list
+                op['input'] = 'sized'
+                if rng.random() < .7:
+                    op.pop('chunk_size', None)
+                    op.pop('iterable_len', None)
+                    if rng.random() < .5:
+                        op['n_splits'] = rng.choice([2, 3, 5])
+                        op['n'] = max(op.get('n', 0), rng.randint(6, 20))
             if op.get('input') == 'nd' and rng.random() < .5:
                 op['input'] = 'list'
             elif op.get('input') == 'nd':
